@@ -1536,8 +1536,9 @@ def part_b(env, res, rng, hist, deadline):
     un2 = install_eval_points()
     try:
         n = 400 if tier == 'quick' else 6000
+        soft = set()
         for ci in range(n):
-            if len(res.failures) > n0 or time.time() > deadline:
+            if hard(res) or time.time() > deadline:
                 break
             k = rng.choice([2, 2, 3])
             if rng.random() < 0.6:
@@ -1547,7 +1548,10 @@ def part_b(env, res, rng, hist, deadline):
                 texts = [rng.choice(EVAL_TEXTS) for _ in range(k)]
             d0 = rng.randrange(len(DATAS))
             datas = [(d0 + j) % len(DATAS) for j in range(k)] if rng.random() < 0.7 else [rng.randrange(len(DATAS)) for _ in texts]
-            warm = [] if rng.random() < 0.6 else [rng.choice(EVAL_TEXTS)]
+            r = rng.random()
+            # warm = expressions already in the cache when the threads start; most often the threads' own texts
+            # (cached statements evaluated from a worker pool)
+            warm = [] if r < 0.35 else sorted(set(texts)) if r < 0.8 else [rng.choice(EVAL_TEXTS)]
             level = 'cold' if ci % 12 == 0 else rng.choice(['engine', 'context', 'context'])
             st['levels'][level] = st['levels'].get(level, 0) + 1
             st['warm'] += bool(warm)
@@ -1572,8 +1576,10 @@ def part_b(env, res, rng, hist, deadline):
                 sw = sum(1 for a, b in zip(s.trace, s.trace[1:]) if a != b)
                 res.case(('eval', tuple(texts), tuple(datas), tuple(s.trace), tuple(warm), level), nontrivial=sw >= 2,
                          sample=dict(kind='eval', texts=texts, datas=datas, schedule=s.trace, warm=warm, level=level) if st['schedules'] == 1 else None)
-                if f is not None:
+                if f is not None and (f['kind'] == 'oracle' or f['key'] not in soft):
+                    soft.add(f['key'])
                     res.fail(f['kind'], f['key'], f['what'], f['case'])
+                if f is not None and f['kind'] == 'oracle':
                     break
     finally:
         un2()
